@@ -1,6 +1,8 @@
 """C05 - only validly threshold-signed duty objects reach the beacon node, once."""
 import re
 
+from props import runner_common
+
 ID = "C05"
 COQ_TARGETS = ["Props/C05.vo"]
 AREA = "runner"
@@ -36,6 +38,11 @@ ASSUMPTIONS = [
 
 _FAST = ["att", "scc"]
 _REST = ["prop", "propc", "propb", "agg", "sc", "vexit", "vreg"]
+
+
+def pre_coq(V):
+    """coq/Gen/RunnerConsts.v: which variant of two repaired code paths the tree contains."""
+    runner_common.pre_coq(V)
 
 
 def runs(tier, seed):
